@@ -61,7 +61,9 @@ func (a AnonymousFlattenMangler) unmangleStruct(sf reflect.StructField, fvs []Fi
 	}
 	fvsIdx := 0
 	allNil := true
-	for i := 0; i < sf.Type.NumField(); i++ {
+	// (Mangle skipped the unexported fields, so the values may run out
+	// before the fields do)
+	for i := 0; i < sf.Type.NumField() && fvsIdx < len(fvs); i++ {
 		oft := sf.Type.Field(i)
 		if oft.Name == fvs[fvsIdx].Field.Name {
 			// named scalar types arrive with their underlying type from e.g. the StringCastingMangler
